@@ -19,6 +19,8 @@ def suite():
     lines = out.strip().splitlines()
     return all(" ok." in l and " 0 failed" in l for l in lines) and len(lines) >= 4, lines
 
+if not os.path.isdir(W):
+    sh("git -C /repo worktree add --detach %s HEAD -q" % W)
 res = {"property": pid.upper(), "mutant": X}
 sh("git reset -q --hard && git clean -fdq", W)
 head = sh("git -C /repo rev-parse HEAD")[1].strip()
